@@ -1,0 +1,90 @@
+//go:build verif
+// +build verif
+
+package caching
+
+import (
+	"unsafe"
+
+	"github.com/bytedance/sonic/internal/rt"
+)
+
+// Hooks for the verification harness under /verif (build tag `verif` only).
+// They drive the real _ProgramMap / ProgramCache code with caller-chosen type
+// descriptors (so that hashes, and therefore collisions, are adversarial) and
+// expose the slot layout for comparison with the model. Nothing here changes
+// the behaviour of the package.
+
+const (
+	VerifInitCapacity = _InitCapacity
+	VerifLoadFactor   = _LoadFactor
+)
+
+// VerifNewType fabricates a distinct type descriptor whose Hash field is h.
+// Only identity (the pointer) and Hash are used by the program map.
+func VerifNewType(h uint32) *rt.GoType {
+	return &rt.GoType{Hash: h}
+}
+
+// VerifSlot is one bucket of the open-addressing table.
+type VerifSlot struct {
+	Vt *rt.GoType
+	Fn interface{}
+}
+
+// VerifMap wraps one (immutable once published) _ProgramMap.
+type VerifMap struct{ p *_ProgramMap }
+
+// VerifNewMap(0) is newProgramMap(); otherwise an empty map of the given
+// capacity (must be a power of two), built exactly like newProgramMap does.
+func VerifNewMap(capacity uint32) *VerifMap {
+	if capacity == 0 {
+		return &VerifMap{newProgramMap()}
+	}
+	return &VerifMap{&_ProgramMap{n: 0, m: capacity - 1, b: make([]_ProgramEntry, capacity)}}
+}
+
+func (m *VerifMap) Get(vt *rt.GoType) interface{} { return m.p.get(vt) }
+
+// Add is _ProgramMap.add: copy, rehash if the load factor would be exceeded, insert.
+// The receiver is left untouched (copy-on-write); a panic is reported as ok=false.
+func (m *VerifMap) Add(vt *rt.GoType, fn interface{}) (r *VerifMap, ok bool) {
+	defer func() {
+		if v := recover(); v != nil {
+			r, ok = nil, false
+		}
+	}()
+	return &VerifMap{m.p.add(vt, fn)}, true
+}
+
+func (m *VerifMap) Copy() *VerifMap { return &VerifMap{m.p.copy()} }
+
+func (m *VerifMap) Rehash() (r *VerifMap, ok bool) {
+	defer func() {
+		if v := recover(); v != nil {
+			r, ok = nil, false
+		}
+	}()
+	return &VerifMap{m.p.rehash()}, true
+}
+
+func verifDump(p *_ProgramMap) (n uint64, mask uint32, slots []VerifSlot) {
+	slots = make([]VerifSlot, len(p.b))
+	for i, e := range p.b {
+		slots[i] = VerifSlot{e.vt, e.fn}
+	}
+	return p.n, p.m, slots
+}
+
+// Dump returns the entry count, the mask and a copy of the bucket array.
+func (m *VerifMap) Dump() (n uint64, mask uint32, slots []VerifSlot) { return verifDump(m.p) }
+
+// VerifNewCache is CreateProgramCache with a chosen initial capacity (0: the default).
+func VerifNewCache(capacity uint32) *ProgramCache {
+	return &ProgramCache{p: unsafe.Pointer(VerifNewMap(capacity).p)}
+}
+
+// VerifCacheDump dumps the currently published map of a cache (plain read: call it when quiescent).
+func VerifCacheDump(c *ProgramCache) (n uint64, mask uint32, slots []VerifSlot) {
+	return verifDump((*_ProgramMap)(c.p))
+}
